@@ -520,10 +520,16 @@ class An(ResultQuantifier[T]):
 
     def evaluate(self) -> Iterable[TypingUnion[T, Dict[TypingUnion[T, SymbolicExpression[T]], T]]]:
         try:
-            with symbolic_mode(mode=None):
-                results = self._evaluate__()
-                assert not in_symbolic_mode()
-                yield from map(self._process_result_, results)
+            results = iter(self._evaluate__())
+            while True:
+                # Symbolic mode is switched off only while a result is being computed, never while this generator
+                # is suspended, so the mode the caller sees is never changed by a result iterator.
+                with symbolic_mode(mode=None):
+                    try:
+                        result = self._process_result_(next(results))
+                    except StopIteration:
+                        break
+                yield result
         finally:
             # also when the consumer stops early or user code raised, otherwise the next evaluation starts from
             # the duplicate tracking state of the abandoned one.
